@@ -15,8 +15,8 @@ LEVEL = "exploration"
 TECHNIQUE = "deterministic simulation with message-level fault injection: a seeded mangler around each side's events() (duplicate, hold back, permute, strip path, inject walks / id-less events), outcome compared with a reference model"
 RULE = ("each run = flavour pair, an eagerly synchronised preamble, then a one-sided history (1-7 ops; the outcome of a one-sided history is determined by the model alone, so no second run is needed as "
         "reference) under schedule style batched|bursty|split, with BOTH sides' event feeds mangled by a seeded mangler: every event may be delivered 1-3 times, held back and released at a later intake, "
-        "permuted within the batch together with held ones (only on sides whose ids are stable), have its path blanked (any side; not the rename events of path-id sides, whose path is the id), the whole batch may be delivered twice in a row, and at scheduled points a full walk of the root is queued as "
-        "walk events or an event without id is queued. All held events are released before the epilogue. Oracles at quiet: peer == origin == model exactly, no .conflicted; engine writes after quiet = 0 "
+        "permuted within the batch together with held ones (only on sides whose ids are stable), have its path blanked (any side; not the rename events of path-id sides, whose path is the id), the whole batch may be delivered twice in a row, an event of an earlier batch may be delivered again much later (at most four times per run; on path-id sides only rename events), and at scheduled points a full walk of the root is queued as "
+        "walk events, an event without id is queued, or an id-less folder-deletion event (Dropbox style) for a folder the user removed earlier or that never existed. All held events are released before the epilogue. Oracles at quiet: peer == origin == model exactly, no .conflicted; engine writes after quiet = 0 "
         "(redundant create/upload of bytes the destination already held is counted as a probe, compared with the unmangled run, but not judged: see DESIGN, false alarms). distinct = (history shape, schedule, flavour, multiset of manglings that "
         "actually fired); non-trivial = >=1 mangling fired and >=1 engine write.")
 ASSUMPTIONS = ["MockProvider is the cloud contract; reordering/late delivery only for id-stable sides, as the statement says", "bounded histories",
